@@ -119,6 +119,15 @@ def model_body(fn, closure_id, line):
             {'cleanup': False, 'stmts': [asg(_pl(0), agg('core::option::Option', 'Some', 1, [{'move': _pl(6)}]) if wrap else {'rv': 'use', 'op': {'move': _pl(6)}})],
              'term': {'k': 'return', 'line': line}},
         ]
+    elif fn == 'core::bool::<impl bool>::then':
+        # self = _1 (bool), f = _2, no closure argument
+        blocks = [
+            {'cleanup': False, 'stmts': [],
+             'term': {'k': 'switch', 'discr': {'copy': _pl(1)}, 'dty': 'bool', 'targets': [['0', 1]], 'otherwise': 2, 'line': line}},
+            {'cleanup': False, 'stmts': [asg(_pl(0), agg('core::option::Option', 'None', 0, []))], 'term': {'k': 'return', 'line': line}},
+            {'cleanup': False, 'stmts': [asg(_pl(5), {'rv': 'agg', 'kind': 'tuple', 'ops': []})], 'term': call_closure(3)},
+            {'cleanup': False, 'stmts': [asg(_pl(0), agg('core::option::Option', 'Some', 1, [{'move': _pl(6)}]))], 'term': {'k': 'return', 'line': line}},
+        ]
     elif fn == 'core::result::Result::<T, E>::map':
         blocks = [
             {'cleanup': False, 'stmts': [asg(_pl(3), {'rv': 'discr', 'place': _pl(1)}, 'isize')],
@@ -135,7 +144,8 @@ def model_body(fn, closure_id, line):
             'sig': 'model', 'generics': [], 'bounds': [], 'arg_count': 2, 'locals': locals_, 'blocks': blocks, 'model': True}
 
 
-MODELLED = ('core::option::Option::<T>::map', 'core::option::Option::<T>::and_then', 'core::result::Result::<T, E>::map')
+MODELLED = ('core::option::Option::<T>::map', 'core::option::Option::<T>::and_then', 'core::result::Result::<T, E>::map',
+            'core::bool::<impl bool>::then')
 
 
 class Node:
@@ -1216,13 +1226,22 @@ def deep_subterms(S, t, depth=4, _seen=None):
                 if pv is not None and pv[0] != 'unknown':
                     for y in deep_subterms(S, pv, depth - 1, _seen):
                         yield y
+            want_f = x[2][0][1] if (x[2] and x[2][0][0] == 'f') else None
             for dn, part in S.defs.get((cx, l), []):
                 v = None
                 nd = S.sg.nodes[dn]
+                if part and want_f is not None:
+                    # field-sensitive: a store to another field of the same local is irrelevant
+                    dpl = nd.d.get('place') if nd.kind == 'assign' else nd.d.get('dest')
+                    p0 = dpl['p'][0] if (dpl and dpl['p']) else None
+                    if isinstance(p0, dict) and 'n' in p0 and 'dc' not in p0 and p0['n'] != want_f:
+                        continue
                 if not part:
                     v = S.def_value(dn, cx, l)
                 elif nd.kind == 'assign':
                     v = S.rvalue(dn, nd.d['rv'])
+                elif nd.kind == 'call':
+                    v = S.call_value(dn)      # a call whose destination is a field of the local
                 if v is not None:
                     for y in deep_subterms(S, v, depth - 1, _seen):
                         yield y
